@@ -1,6 +1,7 @@
 /-
 C01 — use-def and ownership links stay consistent under every edit history.
-Model: `IrVerif/Model/Kernel.lean`; invariant `WF` and the per-operation lemmas: `IrVerif/Lemmas/Kernel*.lean`.
+Model: `IrVerif/Model/Kernel.lean`; invariant `WF` (six clauses, `IrVerif/Lemmas/KernelBase.lean`,
+`KernelOps.lean`) and the per-primitive / per-operation lemmas: `IrVerif/Lemmas/Kernel*.lean`.
 -/
 import IrVerif.Lemmas.KernelOps
 namespace IrVerif.Kernel
@@ -24,27 +25,79 @@ theorem C01_history_from (w : World) (ops : List Op) (h : WF w) :
 
 /-! ### what `WF` says, spelled out on the accessors (so that the statement can be read off) -/
 
+/-- a value lists `(n, i)` as a use exactly when node `n` holds it at input index `i` -/
 theorem C01_use_iff (w : World) (h : WF w) (v n i : Nat) :
     (n, i) ∈ (w.val v).uses ↔ (w.node n).inputs[i]? = some (some v) := h.use.1 v n i
 
 theorem C01_uses_nodup (w : World) (h : WF w) (v : Nat) : (w.val v).uses.Nodup := h.use.2 v
 
+/-- every node output names that node and position as its producer, and conversely -/
 theorem C01_producer_iff (w : World) (h : WF w) (n i v : Nat) :
     (w.node n).outputs[i]? = some v ↔
       ((w.val v).producer = some n ∧ (w.val v).index = some (i : Int)) := h.prod.1 n i v
 
-/-! ### non-vacuity: a reachable world with a shared value, a repeated input and two outputs -/
+/-- a node names a graph exactly when that graph's node sequence contains it — once -/
+theorem C01_node_iff (w : World) (h : WF w) (n g : Nat) :
+    (w.node n).graph = some g ↔ n ∈ (w.gr g).nodes := h.node.mem n g
+
+theorem C01_nodes_nodup (w : World) (h : WF w) (g : Nat) : (w.gr g).nodes.Nodup := h.node.nodup g
+
+/-- a value reports being an input of a graph exactly when it is in that graph's input list -/
+theorem C01_input_iff (w : World) (h : WF w) (g v : Nat) :
+    v ∈ (w.gr g).inputs ↔ ((w.val v).isIn = true ∧ (w.val v).graph = some g) := by
+  constructor
+  · exact h.own.io_mem .inp g v
+  · rintro ⟨hf, hg⟩
+    obtain ⟨g', hg', hm⟩ := h.own.io_flag .inp v hf
+    rw [hg] at hg'; cases hg'; exact hm
+
+theorem C01_output_iff (w : World) (h : WF w) (g v : Nat) :
+    v ∈ (w.gr g).outputs ↔ ((w.val v).isOut = true ∧ (w.val v).graph = some g) := by
+  constructor
+  · exact h.own.io_mem .out g v
+  · rintro ⟨hf, hg⟩
+    obtain ⟨g', hg', hm⟩ := h.own.io_flag .out v hf
+    rw [hg] at hg'; cases hg'; exact hm
+
+/-- a value is an initializer of a graph exactly when the graph stores it — under its current name -/
+theorem C01_initializer_iff (w : World) (h : WF w) (g v : Nat) :
+    (∃ key, (key, v) ∈ (w.gr g).inits) ↔ ((w.val v).isInit = true ∧ (w.val v).graph = some g) := by
+  constructor
+  · rintro ⟨key, hm⟩; exact h.own.init_mem g key v hm
+  · rintro ⟨hf, hg⟩
+    obtain ⟨g', key, hg', hm⟩ := h.own.init_flag v hf
+    rw [hg] at hg'; cases hg'; exact ⟨key, hm⟩
+
+theorem C01_initializer_key (w : World) (h : WF w) (g : Nat) (key : String) (v : Nat)
+    (hm : (key, v) ∈ (w.gr g).inits) : (w.val v).name = some key := (h.key.name g key v hm).1
+
+/-- graph inputs and initializers have no producing node -/
+theorem C01_roots (w : World) (h : WF w) (v : Nat)
+    (hv : (w.val v).isIn = true ∨ (w.val v).isInit = true) : (w.val v).producer = none := h.root v hv
+
+/-- the reference counters equal the multiplicities (values listed several times) -/
+theorem C01_counters (w : World) (h : WF w) (g v : Nat) :
+    lget (w.gr g).inCnt v = (w.gr g).inputs.count v ∧ lget (w.gr g).outCnt v = (w.gr g).outputs.count v :=
+  ⟨h.own.cnt .inp g v, h.own.cnt .out g v⟩
+
+/-! ### non-vacuity: a reachable two-graph world with a value that is input + output + initializer
+and listed twice -/
 
 def exHistory : List Op :=
   [ .newValue (some "x"),
-    .newNode "Add" none [some 0, some 0, none] (some 2) none,
-    .newNode "Neg" none [some 1] none none,
-    .replaceInput 1 0 (some 2),
-    .resizeOutputs 0 1 ]
+    .newValue (some "w"),
+    .newNode "Add" (some "n0") [some 0, some 0, none] (some 2) none none,
+    .newGraph [1, 1] [1] [] [1],
+    .newGraph [] [] [] [],
+    .append 0 0,
+    .setName 2 (some "y"),
+    .replaceInput 0 2 (some 1) ]
 
-example : (run exHistory).val 0 =
-    { name := some "x", uses := [(0, 0), (0, 1)] } := by decide
-example : ((run exHistory).node 1).inputs = [some 2] := by decide
-example : (step (run exHistory) (.resizeOutputs 0 0)).2 = .raised "ValueError" := by decide
+example : (run exHistory).val 1 =
+    { name := some "w", uses := [(0, 2)], graph := some 0, isIn := true, isOut := true, isInit := true } := by
+  decide
+example : ((run exHistory).gr 0).inputs = [1, 1] ∧ ((run exHistory).gr 0).inits = [("w", 1)] ∧
+    ((run exHistory).gr 0).nodes = [0] := by decide
+example : (step (run exHistory) (.io 1 .inp (.append 1))).2 = .raised "ValueError" := by decide
 
 end IrVerif.Kernel
